@@ -45,6 +45,76 @@ Proof. unfold remove_batch. intros H. now apply filter_In in H. Qed.
 Definition archived_inv (s : state) : Prop := incl (st_issued s) (st_archive s).
 Definition stored_inv (s : state) : Prop := forall b, In b (st_batches s) -> In (b_bts b) (st_issued s).
 
+(** ** refreshOpenBatchCheckpoints *)
+Section Refresh.
+  Variable cp : Z -> Z -> Z -> Z.
+  Variable g : cfg.
+  Notation refresh := (refresh cp g).
+  Notation reissue_all := (reissue_all cp).
+  Notation reissued := (reissued cp).
+  Notation recp := (recp cp).
+
+  Lemma refresh_frame s chain tid :
+    st_chains (refresh s chain tid) = st_chains s /\ st_reg (refresh s chain tid) = st_reg s /\
+    st_jailed (refresh s chain tid) = st_jailed s.
+  Proof. unfold Evidence.refresh. destruct (c_redeploy_reissues g); repeat split; reflexivity. Qed.
+
+  (** the BytesToSign of every batch after a refresh is an old one or one published by the refresh *)
+  Lemma reissue_bts_in chain tid bs (l : list Z) :
+    (forall b, In b bs -> In (b_bts b) l) ->
+    forall b', In b' (reissue_all chain tid bs) -> In (b_bts b') (reissued chain tid bs ++ l).
+  Proof.
+    intros H b' Hb'. unfold Evidence.reissue_all in Hb'. apply in_map_iff in Hb'. destruct Hb' as (b & E & Hb).
+    apply in_or_app. destruct (b_chain b =? chain) eqn:Ec.
+    - subst b'. cbn [b_bts]. destruct (recp tid b =? b_bts b) eqn:Eq.
+      + right. apply Z.eqb_eq in Eq. rewrite Eq. now apply H.
+      + left. unfold Evidence.reissued. apply in_map. apply filter_In. split; [exact Hb|]. now rewrite Ec, Eq.
+    - subst b'. right. now apply H.
+  Qed.
+
+  Lemma refresh_stored_inv s chain tid : stored_inv s -> stored_inv (refresh s chain tid).
+  Proof.
+    unfold stored_inv, Evidence.refresh. intros I. destruct (c_redeploy_reissues g); [|exact I].
+    cbn [st_batches st_issued]. now apply reissue_bts_in.
+  Qed.
+
+  Lemma refresh_archived_inv s chain tid : archived_inv s -> archived_inv (refresh s chain tid).
+  Proof.
+    unfold archived_inv, Evidence.refresh. intros I. destruct (c_redeploy_reissues g); [|exact I].
+    cbn [st_archive st_issued]. apply incl_app; [apply incl_appl, incl_refl | now apply incl_appr].
+  Qed.
+
+  Lemma refresh_monotone s chain tid :
+    incl (st_issued s) (st_issued (refresh s chain tid)) /\ incl (st_archive s) (st_archive (refresh s chain tid)) /\
+    incl (st_ever s) (st_ever (refresh s chain tid)).
+  Proof.
+    unfold Evidence.refresh. destruct (c_redeploy_reissues g); cbn; repeat split; try apply incl_refl; apply incl_appr, incl_refl.
+  Qed.
+
+  Lemma refresh_issued_incl_ever s chain tid : incl (st_issued s) (st_ever s) ->
+    (forall b, In b (st_batches s) -> In (b_bts b) (st_ever s)) ->
+    incl (st_issued (refresh s chain tid)) (st_ever (refresh s chain tid)) /\
+    (forall b, In b (st_batches (refresh s chain tid)) -> In (b_bts b) (st_ever (refresh s chain tid))).
+  Proof.
+    unfold Evidence.refresh. intros I St. destruct (c_redeploy_reissues g); [|now split].
+    cbn [st_batches st_issued st_ever]. split.
+    - apply incl_app; [apply incl_appl, incl_refl | now apply incl_appr].
+    - now apply reissue_bts_in.
+  Qed.
+
+  Lemma refresh_ever_eq s chain tid : st_ever s = st_issued s -> st_ever (refresh s chain tid) = st_issued (refresh s chain tid).
+  Proof. unfold Evidence.refresh. intros E. destruct (c_redeploy_reissues g); [cbn; now rewrite E | exact E]. Qed.
+
+  Lemma refresh_bts_some_id s chain tid :
+    (forall b, In b (st_batches s) -> exists tid0, b_bts b = cp tid0 (b_body b) (eff_est (b_est b))) ->
+    forall b, In b (st_batches (refresh s chain tid)) -> exists tid0, b_bts b = cp tid0 (b_body b) (eff_est (b_est b)).
+  Proof.
+    unfold Evidence.refresh. intros I. destruct (c_redeploy_reissues g); [|exact I].
+    cbn [st_batches]. intros b' Hb'. unfold Evidence.reissue_all in Hb'. apply in_map_iff in Hb'. destruct Hb' as (b & E & Hb).
+    destruct (b_chain b =? chain); subst b'; [now exists tid | now apply I].
+  Qed.
+End Refresh.
+
 Section Stored.
   Context {Sig : Type}.
   Variable cp : Z -> Z -> Z -> Z.
@@ -59,7 +129,7 @@ Section Stored.
   Lemma step_stored_inv s o : stored_inv s -> stored_inv (step s o).
   Proof.
     unfold stored_inv, Evidence.step. intros I.
-    destruct o as [key chain body|key est|key|chain tid|reg|v|chain body est sg|key|]; cbn [Evidence.exec].
+    destruct o as [key chain body|key est|key|chain tid|reg|v|chain body est sg|key| |chain2 tid2]; cbn [Evidence.exec].
     - destruct (chain_tid (st_chains s) chain) as [tid|]; [|exact I].
       destruct (find_batch (st_batches s) key) as [b0|]; [exact I|].
       cbn. intros b [E|Hb]; [subst; now left | right; now apply I].
@@ -69,7 +139,7 @@ Section Stored.
       cbn. intros b [E|Hb]; [subst; now left | right; apply I; eapply remove_batch_in; eassumption].
     - destruct (find_batch (st_batches s) key) as [b0|]; [|exact I].
       cbn. intros b Hb. apply I. eapply remove_batch_in; eassumption.
-    - exact I.
+    - now apply refresh_stored_inv.
     - exact I.
     - exact I.
     - destruct (chain_tid (st_chains s) chain) as [tid|]; [|exact I].
@@ -80,6 +150,7 @@ Section Stored.
     - destruct (find_batch (st_batches s) key) as [b0|]; [|exact I].
       cbn. intros b Hb. right. now apply I.
     - cbn. intros b Hb. now apply in_map.
+    - destruct (chain_tid (st_chains s) chain2); [|exact I]. now apply refresh_stored_inv.
   Qed.
 
   Lemma run_from_stored_inv ops : forall s, stored_inv s -> stored_inv (run_from s ops).
@@ -140,7 +211,7 @@ Section Proofs.
   Lemma step_archived_inv s o : genesis_ok o -> stored_inv s -> archived_inv s -> archived_inv (step s o).
   Proof.
     unfold archived_inv, Evidence.step. intros Gk St I.
-    destruct o as [key chain body|key est|key|chain tid|reg|v|chain body est sg|key|]; cbn [Evidence.exec].
+    destruct o as [key chain body|key est|key|chain tid|reg|v|chain body est sg|key| |chain2 tid2]; cbn [Evidence.exec].
     - destruct (chain_tid (st_chains s) chain) as [tid|]; [|exact I].
       destruct (find_batch (st_batches s) key); [exact I|].
       cbn. rewrite Hbuild. intros x [E|Hx]; [now left | right; now apply I].
@@ -149,7 +220,7 @@ Section Proofs.
       destruct (chain_tid (st_chains s) (b_chain b)) as [tid|]; [|exact I].
       cbn. rewrite Hreissue. intros x [E|Hx]; [now left | right; now apply I].
     - destruct (find_batch (st_batches s) key); exact I.
-    - exact I.
+    - now apply refresh_archived_inv.
     - exact I.
     - exact I.
     - destruct (chain_tid (st_chains s) chain) as [tid|]; [|exact I].
@@ -161,6 +232,7 @@ Section Proofs.
       cbn. rewrite served_is_stored. apply find_batch_in in F. destruct F as [F _].
       intros x [E|Hx]; [subst x; apply I; now apply St | now apply I].
     - destruct Gk as [Gk|Gk]; [|contradiction]. cbn. rewrite Gk. apply incl_refl.
+    - destruct (chain_tid (st_chains s) chain2); [|exact I]. now apply refresh_archived_inv.
   Qed.
 
   Lemma run_from_archived_inv ops : Forall genesis_ok ops -> forall s, stored_inv s -> archived_inv s -> archived_inv (run_from s ops).
@@ -208,7 +280,7 @@ Section Proofs2.
     incl (st_issued s) (st_issued (step s o)) /\ incl (st_archive s) (st_archive (step s o)).
   Proof.
     intros NG. unfold Evidence.step.
-    destruct o as [key chain body|key est|key|chain tid|reg|v|chain body est sg|key|]; cbn [Evidence.exec].
+    destruct o as [key chain body|key est|key|chain tid|reg|v|chain body est sg|key| |chain2 tid2]; cbn [Evidence.exec].
     - destruct (chain_tid (st_chains s) chain) as [tid|]; [|split; apply incl_refl].
       destruct (find_batch (st_batches s) key); [split; apply incl_refl|].
       cbn. split; [apply incl_tl, incl_refl|].
@@ -219,7 +291,7 @@ Section Proofs2.
       cbn. split; [apply incl_tl, incl_refl|].
       destruct (c_reissue_archives g); [apply incl_tl|]; apply incl_refl.
     - destruct (find_batch (st_batches s) key); split; apply incl_refl.
-    - split; apply incl_refl.
+    - match goal with |- incl _ (st_issued (fst (refresh _ _ ?s0 _ _, _))) /\ _ => destruct (refresh_monotone cp g s0 chain tid) as (A & B & _) end. now split.
     - split; apply incl_refl.
     - split; apply incl_refl.
     - destruct (chain_tid (st_chains s) chain) as [tid|]; [|split; apply incl_refl].
@@ -230,6 +302,8 @@ Section Proofs2.
     - destruct (find_batch (st_batches s) key); [|split; apply incl_refl].
       cbn. split; [apply incl_tl|]; apply incl_refl.
     - contradiction.
+    - destruct (chain_tid (st_chains s) chain2); [|split; apply incl_refl].
+      destruct (refresh_monotone cp g s chain2 tid2) as (A & B & _). now split.
   Qed.
 
   Theorem issued_and_archive_only_grow ops : ~ In OGenesis ops -> forall s,
@@ -244,14 +318,14 @@ Section Proofs2.
   Lemma step_ever_monotone s o : incl (st_ever s) (st_ever (step s o)).
   Proof.
     unfold Evidence.step.
-    destruct o as [key chain body|key est|key|chain tid|reg|v|chain body est sg|key|]; cbn [Evidence.exec].
+    destruct o as [key chain body|key est|key|chain tid|reg|v|chain body est sg|key| |chain2 tid2]; cbn [Evidence.exec].
     - destruct (chain_tid (st_chains s) chain) as [tid|]; [|apply incl_refl].
       destruct (find_batch (st_batches s) key); [apply incl_refl|]. cbn. apply incl_tl, incl_refl.
     - destruct (find_batch (st_batches s) key) as [b0|]; [|apply incl_refl].
       destruct (c_set_once g && (0 <? b_est b0)); [apply incl_refl|].
       destruct (chain_tid (st_chains s) (b_chain b0)) as [tid|]; [|apply incl_refl]. cbn. apply incl_tl, incl_refl.
     - destruct (find_batch (st_batches s) key); apply incl_refl.
-    - apply incl_refl.
+    - match goal with |- incl _ (st_ever (fst (refresh _ _ ?s0 _ _, _))) => exact (proj2 (proj2 (refresh_monotone cp g s0 chain tid))) end.
     - apply incl_refl.
     - apply incl_refl.
     - destruct (chain_tid (st_chains s) chain) as [tid|]; [|apply incl_refl].
@@ -261,6 +335,7 @@ Section Proofs2.
       destruct (memz v (st_jailed s)); apply incl_refl.
     - destruct (find_batch (st_batches s) key); [|apply incl_refl]. cbn. apply incl_tl, incl_refl.
     - apply incl_refl.
+    - destruct (chain_tid (st_chains s) chain2); [|apply incl_refl]. apply refresh_monotone.
   Qed.
 
   Theorem ever_only_grows ops : forall s, incl (st_ever s) (st_ever (run_from s ops)).
@@ -277,7 +352,7 @@ Section Proofs2.
     (forall b, In b (st_batches (step s o)) -> In (b_bts b) (st_ever (step s o))).
   Proof.
     unfold Evidence.step. intros I St.
-    destruct o as [key chain body|key est|key|chain tid|reg|v|chain body est sg|key|]; cbn [Evidence.exec].
+    destruct o as [key chain body|key est|key|chain tid|reg|v|chain body est sg|key| |chain2 tid2]; cbn [Evidence.exec].
     - destruct (chain_tid (st_chains s) chain) as [tid|]; [|now split].
       destruct (find_batch (st_batches s) key) as [b0|]; [now split|]. cbn. split.
       + intros x [E|Hx]; [now left | right; now apply I].
@@ -289,7 +364,7 @@ Section Proofs2.
       + intros b [E|Hb]; [subst; now left | right; apply St; eapply remove_batch_in; eassumption].
     - destruct (find_batch (st_batches s) key) as [b0|]; [|now split]. cbn. split; [exact I|].
       intros b Hb. apply St. eapply remove_batch_in; eassumption.
-    - now split.
+    - now apply refresh_issued_incl_ever.
     - now split.
     - now split.
     - destruct (chain_tid (st_chains s) chain) as [tid|]; [|now split].
@@ -301,6 +376,7 @@ Section Proofs2.
       + intros x [E|Hx]; [now left | right; now apply I].
       + intros b Hb. right. now apply St.
     - cbn. split; [|exact St]. intros x Hx. apply in_map_iff in Hx. destruct Hx as (b0 & E & Hb). subst x. now apply St.
+    - destruct (chain_tid (st_chains s) chain2); [|now split]. now apply refresh_issued_incl_ever.
   Qed.
 
   Theorem issued_incl_ever ops c : In c (st_issued (run ops)) -> In c (st_ever (run ops)).
@@ -354,19 +430,22 @@ Section Proofs2.
     newly_jailed s (step s o) v -> exists chain body est sg, o = OEvidence chain body est sg.
   Proof.
     unfold newly_jailed, Evidence.step. intros [Hn Hj].
-    destruct o as [key chain body|key est|key|chain tid|reg|u|chain body est sg|key|]; cbn [Evidence.exec] in Hj.
+    destruct o as [key chain body|key est|key|chain tid|reg|u|chain body est sg|key| |chain2 tid2]; cbn [Evidence.exec] in Hj.
     - destruct (chain_tid (st_chains s) chain); [|contradiction].
       destruct (find_batch (st_batches s) key); contradiction.
     - destruct (find_batch (st_batches s) key) as [b0|]; [|contradiction].
       destruct (c_set_once g && (0 <? b_est b0)); [contradiction|].
       destruct (chain_tid (st_chains s) (b_chain b0)); contradiction.
     - destruct (find_batch (st_batches s) key); contradiction.
-    - contradiction.
+    - match type of Hj with In v (st_jailed (fst (refresh _ _ ?s0 _ _, _))) => destruct (refresh_frame cp g s0 chain tid) as (_ & _ & Ej) end.
+      cbn [fst] in Hj. rewrite Ej in Hj. contradiction.
     - contradiction.
     - cbn in Hj. apply filter_In in Hj. destruct Hj. contradiction.
     - now exists chain, body, est, sg.
     - destruct (find_batch (st_batches s) key); contradiction.
     - contradiction.
+    - destruct (chain_tid (st_chains s) chain2); [|contradiction].
+      destruct (refresh_frame cp g s chain2 tid2) as (_ & _ & Ej). cbn [fst] in Hj. rewrite Ej in Hj. contradiction.
   Qed.
 
   (** Every validator jailed at the end of a history was jailed by one specific evidence message. *)
@@ -496,7 +575,8 @@ Definition ex_reissued : Z := ex_cp 7 42 21000.
     re-issued checkpoint, replayed as evidence, jails its signer although the binding is intact. *)
 Definition old_cfg : cfg :=
   {| c_build_archives := true; c_reissue_archives := false; c_rejects_archived := true; c_set_once := true;
-     c_queries_stored := true; c_confirm_recomputes := true; c_genesis_archives_live := true |}.
+     c_queries_stored := true; c_confirm_recomputes := true; c_genesis_archives_live := true;
+     c_redeploy_reissues := false |}.
 
 Theorem honest_jailed_without_rearchive :
   let s := Evidence.run ex_cp ex_recover old_cfg ex_history in
@@ -530,11 +610,13 @@ Proof. cbv zeta. split; reflexivity. Qed.
 
 (** ** Queries are a channel too.  A configuration in which the batch queries recompute
     BytesToSign for the deployment id in force at query time (instead of serving the stored,
-    archived value): after a redeploy the chain hands out, for signing, a checkpoint that never
+    archived value), on a tree that does not re-issue open batches when a compass is activated
+    (main before a05a08cf, where this seeded change was made): after a redeploy the chain hands out, for signing, a checkpoint that never
     entered the archive; the validator that signs what it was given is jailed by the replay. *)
 Definition recomputing_queries_cfg : cfg :=
   {| c_build_archives := true; c_reissue_archives := true; c_rejects_archived := true; c_set_once := true;
-     c_queries_stored := false; c_confirm_recomputes := true; c_genesis_archives_live := true |}.
+     c_queries_stored := false; c_confirm_recomputes := true; c_genesis_archives_live := true;
+     c_redeploy_reissues := false |}.
 
 Definition ex_redeploy_history : list (op (Z * Z)) :=
   [OSetTid 1 7; OSetReg [(1, 5, 210); (1, 6, 212)]; OBuild 1 1 42; OSetTid 1 8].
@@ -556,17 +638,6 @@ Proof.
   - intros a H. vm_compute in H. destruct H as [H|[H|[]]]; inversion H; reflexivity.
   - split; [|exact ex_binding_intact]. split; vm_compute; intuition discriminate.
 Qed.
-
-(** The code as it is: the same history, the query serves the archived bytes; the replay of a
-    signature over them finds no validator (under the new id the subject's checkpoint is another
-    one, and the signature does not recover to a registered address under it). *)
-Example query_after_redeploy_serves_archived_now :
-  let s0 := Evidence.run ex_cp ex_recover code_cfg ex_redeploy_history in
-  let s := Evidence.step ex_cp ex_recover code_cfg s0 (OQuery 1) in
-  served_bts ex_cp code_cfg s0 1 = Some (ex_cp 7 42 300000) /\
-  In (ex_cp 7 42 300000) (st_archive s) /\
-  Evidence.exec ex_cp ex_recover code_cfg s (OEvidence 1 42 0 (ex_sign 5 (ex_cp 7 42 300000))) = (s, RErrNoVal).
-Proof. cbv zeta. split; [reflexivity|]. split; [vm_compute; auto | reflexivity]. Qed.
 
 (** ** Issued versus verified.  ConfirmBatch checks a confirmation against the checkpoint
     RECOMPUTED for the deployment id in force when the confirmation arrives, the queries serve the
@@ -593,7 +664,7 @@ Section Verified.
   Lemma step_bts_inv s o : bts_inv s -> bts_inv (step s o).
   Proof.
     unfold bts_inv, Evidence.step. intros I.
-    destruct o as [key chain body|key est|key|chain tid|reg|v|chain body est sg|key|]; cbn [Evidence.exec].
+    destruct o as [key chain body|key est|key|chain tid|reg|v|chain body est sg|key| |chain2 tid2]; cbn [Evidence.exec].
     - destruct (chain_tid (st_chains s) chain) as [tid|]; [|exact I].
       destruct (find_batch (st_batches s) key) as [b0|]; [exact I|].
       cbn. intros b [E|Hb]; [subst b; now exists tid | now apply I].
@@ -603,7 +674,7 @@ Section Verified.
       cbn. intros b [E|Hb]; [subst b; now exists tid | apply I; eapply remove_batch_in; eassumption].
     - destruct (find_batch (st_batches s) key) as [b0|]; [|exact I].
       cbn. intros b Hb. apply I. eapply remove_batch_in; eassumption.
-    - exact I.
+    - now apply refresh_bts_some_id.
     - exact I.
     - exact I.
     - destruct (chain_tid (st_chains s) chain) as [tid|]; [|exact I].
@@ -613,6 +684,7 @@ Section Verified.
       destruct (memz v (st_jailed s)); exact I.
     - destruct (find_batch (st_batches s) key) as [b0|]; [|exact I]. exact I.
     - exact I.
+    - destruct (chain_tid (st_chains s) chain2); [|exact I]. now apply refresh_bts_some_id.
   Qed.
 
   Theorem stored_bts_is_a_checkpoint ops b :
@@ -637,19 +709,128 @@ Section Verified.
   Qed.
 End Verified.
 
-(** The current code after a redeploy: published <> verified, and the verified one is unprotected. *)
+(** A tree that does not re-issue on compass activation (main before a05a08cf), after a redeploy:
+    published <> verified, and the verified one is unprotected. *)
+Definition no_reissue_cfg : cfg :=
+  {| c_build_archives := true; c_reissue_archives := true; c_rejects_archived := true; c_set_once := true;
+     c_queries_stored := true; c_confirm_recomputes := true; c_genesis_archives_live := true;
+     c_redeploy_reissues := false |}.
+
 Theorem confirm_after_redeploy_checks_unpublished :
-  let s := Evidence.run ex_cp ex_recover code_cfg ex_redeploy_history in
-  served_bts ex_cp code_cfg s 1 = Some (ex_cp 7 42 300000) /\
-  confirm_checks_against ex_cp code_cfg s 1 = Some (ex_cp 8 42 300000) /\
+  let s := Evidence.run ex_cp ex_recover no_reissue_cfg ex_redeploy_history in
+  served_bts ex_cp no_reissue_cfg s 1 = Some (ex_cp 7 42 300000) /\
+  confirm_checks_against ex_cp no_reissue_cfg s 1 = Some (ex_cp 8 42 300000) /\
   In (ex_cp 7 42 300000) (st_archive s) /\
   ~ In (ex_cp 8 42 300000) (st_issued s) /\ ~ In (ex_cp 8 42 300000) (st_archive s) /\
-  newly_jailed s (Evidence.step ex_cp ex_recover code_cfg s (OEvidence 1 42 0 (ex_sign 5 (ex_cp 8 42 300000)))) 5.
+  newly_jailed s (Evidence.step ex_cp ex_recover no_reissue_cfg s (OEvidence 1 42 0 (ex_sign 5 (ex_cp 8 42 300000)))) 5.
 Proof.
   cbv zeta. split; [reflexivity|]. split; [reflexivity|]. split; [vm_compute; auto|].
   split; [vm_compute; intuition discriminate|]. split; [vm_compute; intuition discriminate|].
   split; vm_compute; intuition discriminate.
 Qed.
+
+(** The code as it is (re-issue on activation): the same history; what is served, what ConfirmBatch
+    verifies against and what is archived are one and the same checkpoint, under the new id. *)
+Example after_redeploy_reissued_now :
+  let s := Evidence.run ex_cp ex_recover code_cfg ex_redeploy_history in
+  served_bts ex_cp code_cfg s 1 = Some (ex_cp 8 42 300000) /\
+  confirm_checks_against ex_cp code_cfg s 1 = Some (ex_cp 8 42 300000) /\
+  In (ex_cp 8 42 300000) (st_archive s) /\ In (ex_cp 7 42 300000) (st_archive s) /\
+  Evidence.exec ex_cp ex_recover code_cfg s (OEvidence 1 42 0 (ex_sign 5 (ex_cp 8 42 300000))) = (s, RErrArchived).
+Proof. cbv zeta. split; [reflexivity|]. split; [reflexivity|]. split; [vm_compute; auto|]. split; [vm_compute; auto | reflexivity]. Qed.
+
+(** ** Issued = verified, for all histories without a stale activation.  With the re-issue on
+    activation every stored BytesToSign is the record's checkpoint under the id in force NOW. *)
+Lemma chain_tid_set_same l c t : chain_tid (set_tid l c t) c = Some t.
+Proof.
+  induction l as [|[c' t'] r IH]; cbn [set_tid chain_tid]; [now rewrite Z.eqb_refl|].
+  destruct (c' =? c) eqn:E; cbn [chain_tid]; [now rewrite Z.eqb_refl | now rewrite E].
+Qed.
+
+Lemma chain_tid_set_other l c t c2 : c2 <> c -> chain_tid (set_tid l c t) c2 = chain_tid l c2.
+Proof.
+  intros N. induction l as [|[c' t'] r IH]; cbn [set_tid chain_tid].
+  - destruct (c =? c2) eqn:E; [apply Z.eqb_eq in E; congruence | reflexivity].
+  - destruct (c' =? c) eqn:E; cbn [chain_tid].
+    + apply Z.eqb_eq in E. subst c'. destruct (c =? c2) eqn:E2; [apply Z.eqb_eq in E2; congruence | reflexivity].
+    + destruct (c' =? c2); [reflexivity | exact IH].
+Qed.
+
+Section Synced.
+  Context {Sig : Type}.
+  Variable cp : Z -> Z -> Z -> Z.
+  Variable recover : Z -> Sig -> option addr.
+  Variable g : cfg.
+  Hypothesis Hre : c_redeploy_reissues g = true.
+  Notation step := (Evidence.step cp recover g).
+  Notation run := (Evidence.run cp recover g).
+
+  Definition synced (s : state) : Prop :=
+    forall b, In b (st_batches s) -> current_cp cp s b = Some (b_bts b).
+
+  Definition not_stale (o : op Sig) : Prop := match o with OStaleActivate _ _ => False | _ => True end.
+
+  Lemma step_synced s o : not_stale o -> synced s -> synced (step s o).
+  Proof.
+    unfold synced, Evidence.step. intros NS I.
+    destruct o as [key chain body|key est|key|chain tid|reg|v|chain body est sg|key| |chain2 tid2]; cbn [Evidence.exec].
+    - destruct (chain_tid (st_chains s) chain) as [tid|] eqn:T; [|exact I].
+      destruct (find_batch (st_batches s) key) as [b0|]; [exact I|].
+      cbn. intros b [E|Hb]; [|now apply I]. subst b. unfold current_cp. cbn. now rewrite T.
+    - destruct (find_batch (st_batches s) key) as [b0|]; [|exact I].
+      destruct (c_set_once g && (0 <? b_est b0)); [exact I|].
+      destruct (chain_tid (st_chains s) (b_chain b0)) as [tid|] eqn:T; [|exact I].
+      cbn. intros b [E|Hb]; [|apply I; eapply remove_batch_in; eassumption]. subst b. unfold current_cp. cbn. now rewrite T.
+    - destruct (find_batch (st_batches s) key) as [b0|]; [|exact I].
+      cbn. intros b Hb. apply I. eapply remove_batch_in; eassumption.
+    - unfold Evidence.refresh. rewrite Hre. cbn [fst st_batches]. intros b' Hb'.
+      unfold Evidence.reissue_all in Hb'. apply in_map_iff in Hb'. destruct Hb' as (b & E & Hb).
+      unfold current_cp. cbn [st_chains]. destruct (b_chain b =? chain) eqn:Ec.
+      + subst b'. cbn [b_chain b_body b_est b_bts]. apply Z.eqb_eq in Ec. rewrite Ec, chain_tid_set_same. reflexivity.
+      + subst b'. apply Z.eqb_neq in Ec. rewrite (chain_tid_set_other _ _ _ _ Ec). exact (I b Hb).
+    - exact I.
+    - exact I.
+    - destruct (chain_tid (st_chains s) chain) as [tid|]; [|exact I].
+      destruct (c_rejects_archived g && memz _ (st_archive s)); [exact I|].
+      destruct (recover _ sg) as [a|]; [|exact I].
+      destruct (val_of_addr (st_reg s) chain a) as [v|]; [|exact I].
+      destruct (memz v (st_jailed s)); exact I.
+    - destruct (find_batch (st_batches s) key) as [b0|]; [|exact I]. exact I.
+    - exact I.
+    - contradiction.
+  Qed.
+
+  Theorem batches_synced ops : Forall not_stale ops -> synced (run ops).
+  Proof.
+    unfold Evidence.run, Evidence.run_from.
+    assert (G : forall s, Forall not_stale ops -> synced s -> synced (fold_left step ops s)).
+    { induction ops as [|o r IH]; intros s F I; [exact I|]. inversion F; subst. cbn. apply IH; [assumption|].
+      now apply step_synced. }
+    intros F. apply G; [exact F | intros b []].
+  Qed.
+
+  (** what ConfirmBatch verifies against is what the queries serve, whatever the two flags say *)
+  Theorem confirm_checks_what_is_served ops key :
+    Forall not_stale ops -> confirm_checks_against cp g (run ops) key = served_bts cp g (run ops) key.
+  Proof.
+    intros F. unfold confirm_checks_against, served_bts, served.
+    destruct (find_batch (st_batches (run ops)) key) as [b|] eqn:Fb; [|reflexivity].
+    apply find_batch_in in Fb. destruct Fb as [Fb _].
+    rewrite (batches_synced ops F b Fb).
+    destruct (c_confirm_recomputes g), (c_queries_stored g); reflexivity.
+  Qed.
+End Synced.
+
+(** A stale activation (contract version not above the active one) leaves the chain info alone but
+    still publishes the activation event: skyway re-issues the open batches for the id the event
+    carries.  What it publishes is archived (no C13 clause is touched), but issued <> verified again. *)
+Example stale_activation_desyncs_now :
+  let s := Evidence.run ex_cp ex_recover code_cfg
+             [OSetTid 1 7; OSetReg [(1, 5, 210); (1, 6, 212)]; OBuild 1 1 42; OStaleActivate 1 9] in
+  served_bts ex_cp code_cfg s 1 = Some (ex_cp 9 42 300000) /\
+  confirm_checks_against ex_cp code_cfg s 1 = Some (ex_cp 7 42 300000) /\
+  In (ex_cp 9 42 300000) (st_archive s) /\ In (ex_cp 7 42 300000) (st_archive s).
+Proof. cbv zeta. split; [reflexivity|]. split; [reflexivity|]. split; vm_compute; auto. Qed.
 
 (** ** Chain restart from an exported genesis.  The PastEthSignatureCheckpoint set is not part of
     skyway's GenesisState; the batch records are, BytesToSign included.  An InitGenesis that does
@@ -657,10 +838,12 @@ Qed.
     bytes to sign that are not in its archive: the validator that signs them is jailed by the replay. *)
 Definition unarchiving_genesis_cfg : cfg :=
   {| c_build_archives := true; c_reissue_archives := true; c_rejects_archived := true; c_set_once := true;
-     c_queries_stored := true; c_confirm_recomputes := true; c_genesis_archives_live := false |}.
+     c_queries_stored := true; c_confirm_recomputes := true; c_genesis_archives_live := false;
+     c_redeploy_reissues := true |}.
 Definition archiving_genesis_cfg : cfg :=
   {| c_build_archives := true; c_reissue_archives := true; c_rejects_archived := true; c_set_once := true;
-     c_queries_stored := true; c_confirm_recomputes := true; c_genesis_archives_live := true |}.
+     c_queries_stored := true; c_confirm_recomputes := true; c_genesis_archives_live := true;
+     c_redeploy_reissues := true |}.
 
 Definition ex_genesis_history : list (op (Z * Z)) :=
   [OSetTid 1 7; OSetReg [(1, 5, 210); (1, 6, 212)]; OBuild 1 1 42; OGenesis].
@@ -717,14 +900,14 @@ Section Ever.
     st_ever (Evidence.step cp recover g s o) = st_issued (Evidence.step cp recover g s o).
   Proof.
     intros NG E. unfold Evidence.step.
-    destruct o as [key chain body|key est|key|chain tid|reg|v|chain body est sg|key|]; cbn [Evidence.exec].
+    destruct o as [key chain body|key est|key|chain tid|reg|v|chain body est sg|key| |chain2 tid2]; cbn [Evidence.exec].
     - destruct (chain_tid (st_chains s) chain) as [tid|]; [|exact E].
       destruct (find_batch (st_batches s) key) as [b0|]; [exact E|]. cbn. now rewrite E.
     - destruct (find_batch (st_batches s) key) as [b0|]; [|exact E].
       destruct (c_set_once g && (0 <? b_est b0)); [exact E|].
       destruct (chain_tid (st_chains s) (b_chain b0)) as [tid|]; [|exact E]. cbn. now rewrite E.
     - destruct (find_batch (st_batches s) key) as [b0|]; [|exact E]. cbn. exact E.
-    - exact E.
+    - now apply refresh_ever_eq.
     - exact E.
     - exact E.
     - destruct (chain_tid (st_chains s) chain) as [tid|]; [|exact E].
@@ -734,6 +917,7 @@ Section Ever.
       destruct (memz v (st_jailed s)); exact E.
     - destruct (find_batch (st_batches s) key) as [b0|]; [|exact E]. cbn. now rewrite E.
     - contradiction.
+    - destruct (chain_tid (st_chains s) chain2); [|exact E]. now apply refresh_ever_eq.
   Qed.
 
   Theorem ever_is_issued_without_genesis ops :
